@@ -16,13 +16,53 @@ Proof. reflexivity. Qed.
 Fixpoint mon_after (cfg : config) (m : mon) (ops : list op) : mon :=
   match ops with
   | [] => m
-  | o :: r => mon_after cfg (mon_step cfg m o (fired cfg o)) r
+  | o :: r => mon_after (env_step cfg o) (mon_step cfg m o (fired cfg o)) r
   end.
 
-Lemma Inv_run : forall cfg ops st m, Inv cfg st m -> Inv cfg (run cfg st ops) (mon_after cfg m ops).
+Lemma Inv_run : forall ops cfg st m, Inv cfg st m ->
+  Inv (cfg_after cfg ops) (run cfg st ops) (mon_after cfg m ops).
 Proof.
-  intros cfg ops. induction ops as [|o r IH]; intros st m H; [exact H|].
-  cbn [run mon_after]. apply IH, Inv_step, H.
+  intros ops. induction ops as [|o r IH]; intros cfg st m H; [exact H|].
+  cbn [run mon_after cfg_after]. apply IH, Inv_step, H.
+Qed.
+
+Lemma env_step_cap : forall cfg o, cap (env_step cfg o) = cap cfg.
+Proof. intros cfg o. destruct o; reflexivity. Qed.
+
+Lemma env_step_conns : forall cfg o, conns (env_step cfg o) = conns cfg.
+Proof. intros cfg o. destruct o; reflexivity. Qed.
+
+Lemma env_step_queries : forall cfg o, queries (env_step cfg o) = queries cfg.
+Proof. intros cfg o. destruct o; reflexivity. Qed.
+
+Lemma cfg_after_cap : forall ops cfg, cap (cfg_after cfg ops) = cap cfg.
+Proof.
+  intros ops. induction ops as [|o r IH]; intros cfg; [reflexivity|].
+  cbn [cfg_after]. rewrite IH. apply env_step_cap.
+Qed.
+
+Lemma cfg_after_conns : forall ops cfg, conns (cfg_after cfg ops) = conns cfg.
+Proof.
+  intros ops. induction ops as [|o r IH]; intros cfg; [reflexivity|].
+  cbn [cfg_after]. rewrite IH. apply env_step_conns.
+Qed.
+
+Lemma cfg_after_queries : forall ops cfg, queries (cfg_after cfg ops) = queries cfg.
+Proof.
+  intros ops. induction ops as [|o r IH]; intros cfg; [reflexivity|].
+  cbn [cfg_after]. rewrite IH. apply env_step_queries.
+Qed.
+
+Lemma cfg_after_app : forall a b cfg, cfg_after cfg (a ++ b) = cfg_after (cfg_after cfg a) b.
+Proof.
+  intros a. induction a as [|o r IH]; intros b cfg; [reflexivity|].
+  cbn [app cfg_after]. apply IH.
+Qed.
+
+Lemma run_app : forall a b cfg st, run cfg st (a ++ b) = run (cfg_after cfg a) (run cfg st a) b.
+Proof.
+  intros a. induction a as [|o r IH]; intros b cfg st; [reflexivity|].
+  cbn [app run cfg_after]. apply IH.
 Qed.
 
 (* ---- getTopExternalAddrs ------------------------------------------------------ *)
@@ -315,43 +355,46 @@ Qed.
 
 (* THE theorem: the monitor run on the implementation's traces accepts every
    trace of the model, from every reachable pair of states *)
-Lemma mon_run_model : forall cfg ops st m i, Inv cfg st m -> (cap cfg <= 3)%nat ->
+Lemma mon_run_model : forall ops cfg st m i, Inv cfg st m -> (cap cfg <= 3)%nat ->
   mon_run cfg m i (trace cfg st ops) = [].
 Proof.
-  intros cfg ops. induction ops as [|o r IH]; intros st m i HI Hcap; [reflexivity|].
+  intros ops. induction ops as [|o r IH]; intros cfg st m i HI Hcap; [reflexivity|].
   cbn [trace mon_run]. cbn [observe o_fired]. pose proof (Inv_step cfg st m o HI) as HI'.
-  fold (observe cfg (step cfg st o) (fired cfg o)).
-  rewrite (mon_check_model cfg _ _ (fired cfg o) HI' Hcap). apply IH; assumption.
+  fold (observe (env_step cfg o) (step cfg st o) (fired cfg o)).
+  assert (Hcap' : (cap (env_step cfg o) <= 3)%nat) by (rewrite env_step_cap; exact Hcap).
+  rewrite (mon_check_model (env_step cfg o) _ _ (fired cfg o) HI' Hcap'). apply IH; assumption.
 Qed.
 
 Lemma holds_model : forall cfg ops, (cap cfg <= 3)%nat -> holds cfg (trace cfg init_state ops) = true.
 Proof.
-  intros cfg ops Hcap. unfold holds. rewrite (mon_run_model cfg ops _ _ 0 (Inv_init cfg) Hcap). reflexivity.
+  intros cfg ops Hcap. unfold holds. rewrite (mon_run_model ops cfg _ _ 0 (Inv_init cfg) Hcap). reflexivity.
 Qed.
 
 (* ---- individual sentences of the property ------------------------------------------ *)
 Definition reach (cfg : config) (ops : list op) : state := run cfg init_state ops.
 
-Lemma Inv_reach : forall cfg ops, Inv cfg (reach cfg ops) (mon_after cfg mon_init ops).
+Lemma Inv_reach : forall cfg ops, Inv (cfg_after cfg ops) (reach cfg ops) (mon_after cfg mon_init ops).
 Proof. intros. apply Inv_run, Inv_init. Qed.
 
 (* externalAddrs is the multiset of the observations credited in
    connObservedTWAddrs, with no zero counts and no empty entries *)
-Lemma ext_is_multiset_l : forall cfg ops,
-  let st := reach cfg ops in
+Lemma ext_is_multiset_l : forall cfg0 ops,
+  let cfg := cfg_after cfg0 ops in
+  let st := reach cfg0 ops in
   wf_ext (ext st) /\
   forall l x g, cnt (ext st) l x g = Z.of_nat (length (filter (credits cfg l x g) (cobs st))).
 Proof.
-  intros cfg ops. cbn zeta. pose proof (Inv_reach cfg ops) as HI.
+  intros cfg0 ops. cbn zeta. pose proof (Inv_reach cfg0 ops) as HI.
   split; [apply (inv_wf _ _ _ HI)|apply (inv_cnt _ _ _ HI)].
 Qed.
 
-Lemma one_credit_per_conn_l : forall cfg ops,
-  let st := reach cfg ops in
+Lemma one_credit_per_conn_l : forall cfg0 ops,
+  let cfg := cfg_after cfg0 ops in
+  let st := reach cfg0 ops in
   NoDup (keys (cobs st)) /\
   (forall c x, In (c, x) (cobs st) -> valid_conn cfg c /\ get Z.eqb c (cobs st) = Some x).
 Proof.
-  intros cfg ops. cbn zeta. pose proof (Inv_reach cfg ops) as HI. split.
+  intros cfg0 ops. cbn zeta. pose proof (Inv_reach cfg0 ops) as HI. split.
   - apply (inv_nodup _ _ _ HI).
   - intros c x H. split; [apply (inv_valid _ _ _ HI c x H)|].
     apply (In_get Z.eqb zeqb_spec); [apply (inv_nodup _ _ _ HI)|exact H].
@@ -454,48 +497,53 @@ Proof.
   - cbn [cobs]. symmetry. apply (del_notin Z.eqb zeqb_spec), (get_None_notin Z.eqb zeqb_spec), Eg.
 Qed.
 
-Lemma remove_withdraws_l : forall cfg ops c,
-  let st := reach cfg ops in
+Lemma remove_withdraws_l : forall cfg0 ops c,
+  let cfg := cfg_after cfg0 ops in
+  let st := reach cfg0 ops in
   let st' := step cfg st (Disconnect c) in
   get Z.eqb c (cobs st') = None /\
   zmem c (closed st') = true /\
   forall l x g, cnt (ext st') l x g =
                 Z.of_nat (length (filter (credits cfg l x g) (del Z.eqb c (cobs st)))).
 Proof.
-  intros cfg ops c. cbn zeta. pose proof (Inv_reach cfg ops) as HI.
-  pose proof (Inv_step cfg _ _ (Disconnect c) HI) as HI'.
+  intros cfg0 ops c. cbn zeta. pose proof (Inv_reach cfg0 ops) as HI.
+  set (cfg := cfg_after cfg0 ops) in *.
+  pose proof (Inv_step cfg _ _ (Disconnect c) HI) as HI'. cbn [env_step] in HI'.
   repeat split.
   - rewrite disconnect_cobs. apply get_del_same.
   - cbn [step]. unfold disconnect, remove_conn. cbn [mark_closed ext cobs closed].
-    assert (Hz : zmem c (if zmem c (closed (reach cfg ops)) then closed (reach cfg ops)
-                         else c :: closed (reach cfg ops)) = true).
-    { destruct (zmem c (closed (reach cfg ops))) eqn:E; [exact E|].
+    assert (Hz : zmem c (if zmem c (closed (reach cfg0 ops)) then closed (reach cfg0 ops)
+                         else c :: closed (reach cfg0 ops)) = true).
+    { destruct (zmem c (closed (reach cfg0 ops))) eqn:E; [exact E|].
       unfold zmem. cbn [existsb]. rewrite Z.eqb_refl. reflexivity. }
-    destruct (get Z.eqb c (cobs (reach cfg ops))); [|exact Hz].
+    destruct (get Z.eqb c (cobs (reach cfg0 ops))); [|exact Hz].
     destruct (conn_info cfg c) as [ci|]; [|exact Hz].
     destruct (c_local ci); [|exact Hz]. destruct (observer_of (c_remote ci)); exact Hz.
   - intros l x g. rewrite (inv_cnt _ _ _ HI'). rewrite disconnect_cobs. reflexivity.
 Qed.
 
 (* the answers: threshold, cap, order, and completeness up to the cap *)
-Lemma addrs_threshold_l : forall cfg ops l r,
-  let st := reach cfg ops in
+Lemma addrs_threshold_l : forall cfg0 ops l r,
+  let cfg := cfg_after cfg0 ops in
+  let st := reach cfg0 ops in
   let n := nobs cfg (cred_of cfg (cobs st)) l in
   let xs := addrs_for cfg st (Some l, r) in
   (forall x, In x xs -> thresh cfg <= Z.of_nat (n x)) /\
   (forall y, thresh cfg <= Z.of_nat (n y) -> 1 <= thresh cfg -> In y xs \/
      (length xs = cap cfg /\ forall x, In x xs -> (n y <= n x)%nat)).
 Proof.
-  intros cfg ops l r. cbn zeta. pose proof (Inv_reach cfg ops) as HI.
+  intros cfg0 ops l r. cbn zeta. pose proof (Inv_reach cfg0 ops) as HI.
+  set (cfg := cfg_after cfg0 ops) in *.
   destruct (addrs_for_props cfg _ _ l r HI) as [P1 [_ [_ [_ P5]]]].
   rewrite (inv_cred _ _ _ HI) in *. split; [exact P1|].
   intros y Hy Hpos.
-  destruct (in_dec Z.eq_dec y (addrs_for cfg (reach cfg ops) (Some l, r))) as [Hin|Hnot]; [left; exact Hin|].
+  destruct (in_dec Z.eq_dec y (addrs_for cfg (reach cfg0 ops) (Some l, r))) as [Hin|Hnot]; [left; exact Hin|].
   right. destruct (P5 y Hnot Hy) as [Q1 [Q2|Q2]]; [lia|]. split; assumption.
 Qed.
 
-Lemma at_most_three_sorted_l : forall cfg ops la, cap cfg = the_cap ->
-  let st := reach cfg ops in
+Lemma at_most_three_sorted_l : forall cfg0 ops la, cap cfg0 = the_cap ->
+  let cfg := cfg_after cfg0 ops in
+  let st := reach cfg0 ops in
   let xs := addrs_for cfg st la in
   (length xs <= 3)%nat /\ NoDup xs /\
   match fst la with
@@ -503,20 +551,22 @@ Lemma at_most_three_sorted_l : forall cfg ops la, cap cfg = the_cap ->
   | None => xs = []
   end.
 Proof.
-  intros cfg ops [[l|] r] Hcap; cbn zeta; cbn [fst].
-  - pose proof (Inv_reach cfg ops) as HI.
-    destruct (addrs_for_props cfg _ _ l r HI) as [_ [P2 [P3 [P4 _]]]].
-    rewrite (inv_cred _ _ _ HI) in *. rewrite Hcap, the_cap_three in P2. repeat split; assumption.
+  intros cfg0 ops [[l|] r] Hcap; cbn zeta; cbn [fst].
+  - pose proof (Inv_reach cfg0 ops) as HI.
+    destruct (addrs_for_props _ _ _ l r HI) as [_ [P2 [P3 [P4 _]]]].
+    rewrite (inv_cred _ _ _ HI) in *. rewrite cfg_after_cap, Hcap, the_cap_three in P2. repeat split; assumption.
   - repeat split; [cbn; lia|constructor].
 Qed.
 
-Lemma addrs_all_sound_l : forall cfg ops x r,
-  let st := reach cfg ops in
+Lemma addrs_all_sound_l : forall cfg0 ops x r,
+  let cfg := cfg_after cfg0 ops in
+  let st := reach cfg0 ops in
   In (x, r) (addrs_all cfg st) ->
   exists l, In (Some l, r) (listen cfg) /\
             thresh cfg <= Z.of_nat (nobs cfg (cred_of cfg (cobs st)) l x).
 Proof.
-  intros cfg ops x r. cbn zeta. pose proof (Inv_reach cfg ops) as HI. intros H.
+  intros cfg0 ops x r. cbn zeta. pose proof (Inv_reach cfg0 ops) as HI.
+  set (cfg := cfg_after cfg0 ops) in *. intros H.
   unfold addrs_all in H. apply in_flat_map in H. destruct H as [la [Hla H]].
   apply in_map_iff in H. destruct H as [x0 [E Hx]]. inversion E. subst x0 r. clear E.
   apply dedup_laddr_incl in Hla. destruct la as [[l|] r]; cbn [fst snd] in *; [|destruct Hx].
@@ -525,39 +575,89 @@ Proof.
 Qed.
 
 (* the host-level truncation in addrs_manager.appendObservedAddrs drops nothing *)
-Lemma host_truncation_l : forall cfg ops la, cap cfg = the_cap ->
-  host_observed_for (Z.to_nat maxObservedAddrsPerListenAddr) cfg (reach cfg ops) la =
-  addrs_for cfg (reach cfg ops) la.
+Lemma host_truncation_l : forall cfg0 ops la, cap cfg0 = the_cap ->
+  let cfg := cfg_after cfg0 ops in
+  host_observed_for (Z.to_nat maxObservedAddrsPerListenAddr) cfg (reach cfg0 ops) la =
+  addrs_for cfg (reach cfg0 ops) la.
 Proof.
-  intros cfg ops la Hcap. unfold host_observed_for. apply firstn_all2.
-  pose proof (addrs_for_length cfg _ _ la (Inv_reach cfg ops)) as H.
-  rewrite Hcap, the_cap_three in H. change (Z.to_nat maxObservedAddrsPerListenAddr) with 3%nat. exact H.
+  intros cfg0 ops la Hcap. cbn zeta. unfold host_observed_for. apply firstn_all2.
+  pose proof (addrs_for_length _ _ _ la (Inv_reach cfg0 ops)) as H.
+  rewrite cfg_after_cap, Hcap, the_cap_three in H. change (Z.to_nat maxObservedAddrsPerListenAddr) with 3%nat. exact H.
 Qed.
 
 (* len(ObservedBy) counts observer groups once, whatever the multiplicity *)
-Lemma observed_by_is_distinct_groups_l : forall cfg ops l x,
-  let st := reach cfg ops in
+Lemma observed_by_is_distinct_groups_l : forall cfg0 ops l x,
+  let cfg := cfg_after cfg0 ops in
+  let st := reach cfg0 ops in
   length (oset (ext st) l x) = nobs cfg (cred_of cfg (cobs st)) l x.
 Proof.
-  intros cfg ops l x. cbn zeta. pose proof (Inv_reach cfg ops) as HI.
+  intros cfg0 ops l x. cbn zeta. pose proof (Inv_reach cfg0 ops) as HI.
   rewrite <- (inv_cred _ _ _ HI). apply oset_length_nobs, HI.
 Qed.
 
 (* Addrs(0) is, per distinct listen address in listen order, that address's
    AddrsFor answer joined with its rest: so the per-local cap and order of
    AddrsFor carry over to Addrs(0) segment by segment *)
-Lemma addrs_all_per_local_l : forall cfg ops, cap cfg = the_cap ->
-  let st := reach cfg ops in
+Lemma addrs_all_per_local_l : forall cfg0 ops, cap cfg0 = the_cap ->
+  let cfg := cfg_after cfg0 ops in
+  let st := reach cfg0 ops in
   addrs_all cfg st =
     flat_map (fun la : laddr => map (fun x => (x, snd la)) (addrs_for cfg st la))
              (dedup_laddr [] (listen cfg)) /\
   (forall la, In la (dedup_laddr [] (listen cfg)) -> In la (listen cfg)) /\
   (forall la, (length (addrs_for cfg st la) <= 3)%nat).
 Proof.
-  intros cfg ops Hcap. cbn zeta. split; [reflexivity|]. split.
+  intros cfg0 ops Hcap. cbn zeta. split; [reflexivity|]. split.
   - intros la. apply dedup_laddr_incl.
-  - intros la. pose proof (addrs_for_length cfg _ _ la (Inv_reach cfg ops)) as H.
-    rewrite Hcap, the_cap_three in H. exact H.
+  - intros la. pose proof (addrs_for_length _ _ _ la (Inv_reach cfg0 ops)) as H.
+    rewrite cfg_after_cap, Hcap, the_cap_three in H. exact H.
+Qed.
+
+(* ---- the environment: listen set and threshold change during a history ------- *)
+Lemma thresh_after_set : forall cfg0 ops n, thresh (cfg_after cfg0 (ops ++ [SetThresh n])) = n.
+Proof. intros. rewrite cfg_after_app. reflexivity. Qed.
+
+Lemma listen_after_set : forall cfg0 ops ls, listen (cfg_after cfg0 (ops ++ [SetListen ls])) = ls.
+Proof. intros. rewrite cfg_after_app. reflexivity. Qed.
+
+(* neither is state of the Manager: the change itself credits / withdraws nothing *)
+Lemma env_op_keeps_state : forall cfg0 ops o,
+  (exists ls, o = SetListen ls) \/ (exists n, o = SetThresh n) ->
+  reach cfg0 (ops ++ [o]) = reach cfg0 ops.
+Proof.
+  intros cfg0 ops o H. unfold reach. rewrite run_app.
+  destruct H as [[ls ->]|[n ->]]; reflexivity.
+Qed.
+
+(* the threshold applied to an answer is the CURRENT value of ActivationThresh:
+   after it was set to n, every address returned has at least n observers *)
+Lemma threshold_is_current_l : forall cfg0 ops n l r x,
+  let cfg := cfg_after cfg0 (ops ++ [SetThresh n]) in
+  let st := reach cfg0 (ops ++ [SetThresh n]) in
+  In x (addrs_for cfg st (Some l, r)) ->
+  n <= Z.of_nat (nobs cfg (cred_of cfg (cobs st)) l x).
+Proof.
+  intros cfg0 ops n l r x. cbn zeta. intros H.
+  pose proof (proj1 (addrs_threshold_l cfg0 (ops ++ [SetThresh n]) l r) x H) as P.
+  cbn zeta in P. rewrite thresh_after_set in P. exact P.
+Qed.
+
+(* a tracked connection that re-reports after the listener it arrived at was
+   closed: the report is on a connection not arriving at a (current) listen
+   address, so it is not credited, and being the connection's newest report it
+   withdraws the earlier one *)
+Lemma rereport_after_listener_closed_l : forall cfg0 ops ls c oa ci l,
+  let cfg := cfg_after cfg0 (ops ++ [SetListen ls]) in
+  let st := reach cfg0 (ops ++ [SetListen ls]) in
+  conn_info cfg c = Some ci -> c_local ci = Some l ->
+  existsb (fun la : laddr => match fst la with Some t => t =? tw_id l | None => false end) ls = false ->
+  let st' := step cfg st (Observe c oa) in
+  st' = remove_conn cfg st c /\ get Z.eqb c (cobs st') = None.
+Proof.
+  intros cfg0 ops ls c oa ci l. cbn zeta. intros Eci El Hls.
+  apply (filtered_never_counts_l _ _ c oa ci Eci).
+  right. right. right. rewrite El. left.
+  unfold is_listen_tw. rewrite listen_after_set. exact Hls.
 Qed.
 
 (* the shipped default threshold meets the hypothesis 1 <= thresh of the
